@@ -1,0 +1,197 @@
+// Verification hooks (cargo feature `verif_hooks`).
+//
+// Everything in here is add-only instrumentation for external model-checking
+// harnesses: read-only introspection of internal state, a clock seam and
+// scheduling points. With the feature off this module is not compiled and no
+// call site exists.
+
+#![allow(missing_docs, clippy::missing_panics_doc, clippy::expect_used)]
+
+use crate::{vlog::BlobFileId, Memtable, SeqNo, Table, TableId, Tree};
+use std::sync::Arc;
+
+/// A table as it sits inside a version.
+pub struct TableInfo {
+    pub table: Table,
+    pub id: TableId,
+    pub level: usize,
+    pub run: usize,
+    pub pos: usize,
+    pub global_seqno: SeqNo,
+    pub checksum: u128,
+    pub min_key: Vec<u8>,
+    pub max_key: Vec<u8>,
+    pub seqno_min: SeqNo,
+    pub seqno_max: SeqNo,
+    pub item_count: u64,
+    pub tombstone_count: u64,
+    pub weak_tombstone_count: u64,
+    pub weak_tombstone_reclaimable: u64,
+    pub file_size: u64,
+    pub created_at: u128,
+    pub path: std::path::PathBuf,
+    pub is_deleted: bool,
+}
+
+pub struct BlobFileInfo {
+    pub id: BlobFileId,
+    pub item_count: u64,
+    pub total_compressed_bytes: u64,
+    pub total_uncompressed_bytes: u64,
+    pub created_at: u128,
+    pub checksum: u128,
+    pub path: std::path::PathBuf,
+    pub is_deleted: bool,
+}
+
+pub struct GcEntry {
+    pub id: BlobFileId,
+    pub len: usize,
+    pub bytes: u64,
+    pub on_disk_bytes: u64,
+}
+
+pub struct VersionInfo {
+    pub id: u64,
+    /// level -> run -> tables (in read order)
+    pub levels: Vec<Vec<Vec<TableInfo>>>,
+    pub blob_files: Vec<BlobFileInfo>,
+    pub gc_stats: Vec<GcEntry>,
+}
+
+pub struct SuperVersionInfo {
+    pub seqno: SeqNo,
+    pub version: VersionInfo,
+    pub active: Arc<Memtable>,
+    pub sealed: Vec<Arc<Memtable>>,
+}
+
+fn table_info(table: &Table, level: usize, run: usize, pos: usize) -> TableInfo {
+    let m = &table.metadata;
+    TableInfo {
+        table: table.clone(),
+        id: table.id(),
+        level,
+        run,
+        pos,
+        global_seqno: table.global_seqno(),
+        checksum: table.checksum().into_u128(),
+        min_key: m.key_range.min().to_vec(),
+        max_key: m.key_range.max().to_vec(),
+        seqno_min: table.verif_seqnos().0,
+        seqno_max: table.verif_seqnos().1,
+        item_count: m.item_count,
+        tombstone_count: m.tombstone_count,
+        weak_tombstone_count: m.weak_tombstone_count,
+        weak_tombstone_reclaimable: m.weak_tombstone_reclaimable,
+        file_size: m.file_size,
+        created_at: *m.created_at,
+        path: (*table.path).clone(),
+        is_deleted: table
+            .is_deleted
+            .load(std::sync::atomic::Ordering::Acquire),
+    }
+}
+
+#[must_use]
+pub fn version_info(version: &crate::version::Version) -> VersionInfo {
+    let levels = version
+        .iter_levels()
+        .enumerate()
+        .map(|(li, level)| {
+            level
+                .iter()
+                .enumerate()
+                .map(|(ri, run)| {
+                    run.iter()
+                        .enumerate()
+                        .map(|(pi, t)| table_info(t, li, ri, pi))
+                        .collect()
+                })
+                .collect()
+        })
+        .collect();
+
+    let mut blob_files = version
+        .blob_files
+        .iter()
+        .map(|bf| BlobFileInfo {
+            id: bf.id(),
+            item_count: bf.0.meta.item_count,
+            total_compressed_bytes: bf.0.meta.total_compressed_bytes,
+            total_uncompressed_bytes: bf.0.meta.total_uncompressed_bytes,
+            created_at: bf.0.meta.created_at,
+            checksum: bf.0.checksum.into_u128(),
+            path: bf.0.path.clone(),
+            is_deleted: bf.0.is_deleted.load(std::sync::atomic::Ordering::Acquire),
+        })
+        .collect::<Vec<_>>();
+    blob_files.sort_by_key(|x| x.id);
+
+    let mut gc_stats = version
+        .gc_stats()
+        .iter()
+        .map(|(id, e)| GcEntry {
+            id: *id,
+            len: e.len,
+            bytes: e.bytes,
+            on_disk_bytes: e.on_disk_bytes,
+        })
+        .collect::<Vec<_>>();
+    gc_stats.sort_by_key(|x| x.id);
+
+    VersionInfo {
+        id: version.id(),
+        levels,
+        blob_files,
+        gc_stats,
+    }
+}
+
+/// The whole version history (oldest first).
+#[must_use]
+pub fn history(tree: &Tree) -> Vec<SuperVersionInfo> {
+    let lock = tree.version_history.read().expect("lock is poisoned");
+    lock.verif_iter()
+        .map(|sv| SuperVersionInfo {
+            seqno: sv.seqno,
+            version: version_info(&sv.version),
+            active: sv.active_memtable.clone(),
+            sealed: sv.sealed_memtables.iter().cloned().collect(),
+        })
+        .collect()
+}
+
+/// IDs currently hidden by running compactions.
+#[must_use]
+pub fn hidden_tables(tree: &Tree) -> Vec<TableId> {
+    let lock = tree.compaction_state.lock().expect("lock is poisoned");
+    let mut v = lock.hidden_set().set.iter().copied().collect::<Vec<_>>();
+    v.sort_unstable();
+    v
+}
+
+#[must_use]
+pub fn blob_file_id_counter(tree: &Tree) -> u64 {
+    tree.blob_file_id_counter.get()
+}
+
+#[must_use]
+pub fn seqno_counters(tree: &Tree) -> (SeqNo, SeqNo) {
+    (tree.config.seqno.get(), tree.config.visible_seqno.get())
+}
+
+// ---------------------------------------------------------------------------
+// Clock seam
+
+static NOW_OVERRIDE: std::sync::Mutex<Option<std::time::Duration>> = std::sync::Mutex::new(None);
+
+/// Overrides (or restores, with `None`) the wall clock the crate reads.
+pub fn set_now(value: Option<std::time::Duration>) {
+    *NOW_OVERRIDE.lock().expect("lock is poisoned") = value;
+}
+
+#[must_use]
+pub fn now_override() -> Option<std::time::Duration> {
+    *NOW_OVERRIDE.lock().expect("lock is poisoned")
+}
